@@ -17,6 +17,13 @@ var c09AssertAllow = []allowSite{
 	{"oidc.NewEncoder", "value.Interface().(SpaceDelimitedArray)", "schema invokes a registered encoder only with values of the registered type (RegisterEncoder(SpaceDelimitedArray{}, ...))"},
 }
 
+var c09PreconditionAllow = []allowSite{
+	{"op.NewDeviceCode", "make(nBytes)", "the size is the provider's configuration constant RecommendedDeviceCodeBytes (>= 16, checked in C16), not request input"},
+	{"op.NewUserCode", "crypto/rand.Int(max)", "max = len(charSet) of the provider's configured user-code alphabet (configuration, not request input); an empty alphabet is a deployment error"},
+	{"op.NewUserCode", "strings.Builder.Grow(((charAmount + (charAmount / dashInterval)) - 1))", "provider configuration (UserCodeConfig), not request input"},
+	{"op.NewUserCode", "strings.Builder.Grow(charAmount)", "provider configuration (UserCodeConfig), not request input"},
+}
+
 var c09BoundsAllow = []allowSite{
 	{"client/rp.AuthURLHandler", "opts[i]", "opts is make(len(urlParam)) and i ranges over urlParam"},
 	{"crypto.HashString", "hash.Sum(nil)[:size]", "size is hash.Size() or half of it; Sum(nil) returns exactly Size() bytes"},
@@ -37,7 +44,7 @@ func init() {
 		Level:       "Sound static check of the structural clauses of the property for in-module code: at most one response and stop-after-error on every path of every handler; no nil dereference of nullable decode targets or nil-with-success results; no unchecked assertion / explicit panic / unreviewed unproven bounds check / codec recursion. This is most of what 'never panics, never answers twice' means for this code base; panics inside dependencies are outside.",
 		Note:        "Trusted: go/types+go/cfg, the compiler's prove pass for the bounds report, dependencies. Allow-lists are keyed by function and expression with a reason each.",
 		Technique:   "static analysis: response typestate over go/cfg with interprocedural summaries; nil-flow rules over the typed AST; compiler bounds-check report; codec recursion rule",
-		Rules:       []string{"E2.R-once", "E2.R-stop", "E2.R-answer", "E3.N1", "E3.N2", "E3.N3", "E4.R-assert", "E4.R-panic", "E4.R-recursion", "E1"},
+		Rules:       []string{"E2.R-once", "E2.R-stop", "E2.R-answer", "E3.N1", "E3.N2", "E3.N3", "E4.R-assert", "E4.R-panic", "E4.R-recursion", "E4.R-precondition", "E1"},
 		Floors:      []Floor{{"E2.R-once", 55}, {"E3.N1", 8}, {"E4.R-recursion", 10}},
 		Run: func(c *Ctx) {
 			RunE2(c)
@@ -54,6 +61,7 @@ func init() {
 			RunAssertPanic(c, []string{"oidc", "op", "client", "client/rp", "client/rs", "client/profile", "client/tokenexchange", "http", "crypto", "strings"}, c09AssertAllow, nil)
 			RunBounds(c, c09BoundsAllow)
 			RunMarshalRecursion(c, []string{"oidc", "op", "client", "client/rp"})
+			RunPreconditions(c, []string{"oidc", "op", "client", "client/rp", "client/rs", "client/profile", "client/tokenexchange", "http", "crypto"}, c09PreconditionAllow)
 		},
 	})
 }
